@@ -11,6 +11,8 @@ from rules.lib import facts, report  # noqa: E402
 
 
 def main():
+    # builder chains of large declarations (a 256-variant enum) nest terms a few thousand deep
+    sys.setrecursionlimit(50000)
     if len(sys.argv) >= 3 and sys.argv[1] == "--replay":
         import json
         v = json.load(open(sys.argv[2]))
